@@ -353,7 +353,13 @@ func (r *Runner) Layer(layer string, n int, f func(c *Case)) {
 func (r *Runner) runOne(c *Case, f func(c *Case)) {
 	defer func() {
 		if p := recover(); p != nil {
-			// a panic that escaped the engine's own recover() wrappers is a harness bug
+			// synctest's logical deadlock detector: the bubble's goroutines are leaked and may hold
+			// harness locks, so the process must die here; the driver attributes the death to this
+			// journalled case (a violation where a hang is one)
+			if s := fmt.Sprint(p); strings.Contains(s, "deadlock: all goroutines in bubble are blocked") || strings.Contains(s, "blocked goroutines remain") {
+				panic(p)
+			}
+			// any other panic that escaped the engine's own recover() wrappers is a harness bug
 			c.res.Inconcl = append(c.res.Inconcl, fmt.Sprintf("HARNESS-PANIC %v\n%s", p, debug.Stack()))
 		}
 	}()
